@@ -5,7 +5,18 @@ import Unsized.MachineListLemmas
 namespace Unsized.Machine
 open Common Unsized Unsized.Text
 
-/-- What it means for the machine to refine the owned model on one op at one node. -/
+/-- Ops that are a sequence of single-container steps (`Map/Set::insert_all`, `UnsizedString::set`):
+on an error the steps already done stay done (known findings `map_set_insert_all_partial`,
+`unsized_string_set_partial`). -/
+def composite : Op → Bool
+  | .strSet _ => true
+  | .sinsertAll _ => true
+  | .minsertAll _ => true
+  | _ => false
+
+/-- What it means for the machine to refine the owned model on one op at one node: same outcome;
+on success the node holds the new value (canonically); on an error of a non-composite op nothing
+changed. `Err.initFail` (an initialiser failing behind the resize — known finding) is not claimed. -/
 def Refines (s : Shape) (v : Val) (p : List Step) (t : Shape) (u : Val) (m : Mem) (op : Op) : Prop :=
   match Spec.applyNode t u op with
   | .ok (u', r) =>
@@ -13,7 +24,8 @@ def Refines (s : Shape) (v : Val) (p : List Step) (t : Shape) (u : Val) (m : Mem
       ∃ m' : Mem, applyAt ⟨s, p⟩ t (offsetOf s v p) op m = (m', .ok r)
         ∧ Focus s (subst s v p u') p t u' m' ∧ m'.orig = m.orig ∧ m'.refuse = m.refuse
   | .error .initFail => True
-  | .error e => applyAt ⟨s, p⟩ t (offsetOf s v p) op m = (m, .error e)
+  | .error e =>
+    ∃ m' : Mem, applyAt ⟨s, p⟩ t (offsetOf s v p) op m = (m', .error e) ∧ (composite op = false → m' = m)
 
 theorem Focus.small {s v p t u m} (_F : Focus s v p t u m) (c : Calm m) (X : List Nat)
     (h : (plug s v p X).length ≤ m.orig + maxIncrease) : (plug s v p X).length < Shape.u32Lim := by
